@@ -301,10 +301,11 @@ bool Instance::eval(const size_t argc, char* const* argv) {
             script << opc;
             continue;
         }
-        // hex string?
-        if (!(vlen & 1)) {
+        // hex string? (with or without the 0x prefix that the warning above recommends)
+        const char* hex = (v[0] == '0' && v[1] == 'x') ? v + 2 : v;
+        if (!(strlen(hex) & 1)) {
             std::vector<unsigned char> pushData;
-            if (TryHex(v, pushData)) {
+            if (TryHex(hex, pushData)) {
                 // push in minimal form: a plain 1-byte push of 0x01..0x10 / 0x81 is rejected by MINIMALDATA
                 if (pushData.size() == 1 && pushData[0] >= 1 && pushData[0] <= 16) {
                     script << (opcodetype)(OP_1 + pushData[0] - 1);
